@@ -93,6 +93,9 @@ class UDPEndpoint(Endpoint, asyncio.DatagramProtocol):
         :param packet: the raw (binary) data to send.
         """
         self.assert_open()
+        if not self._running:
+            # We were closed, but the transport still holds its socket until the event loop gets to it: drop the packet.
+            return
         try:
             cast("DatagramTransport", self._transport).sendto(packet, socket_address)
             self.bytes_up += len(packet)
